@@ -555,3 +555,53 @@ def _is_completion_helper(h: FuncInfo) -> bool:
     has_not_in = any(isinstance(n, ast.Compare) and any(isinstance(o, ast.NotIn) for o in n.ops) for n in own_nodes(h.node))
     evaluates = any(isinstance(n, ast.Call) and is_eval_method_name(call_attr(n)) for n in own_nodes(h.node))
     return h.is_generator and has_not_in and evaluates
+
+
+# ---------------------------------------------------------------------------------- ROW-KEY-CANONICAL
+def rule_row_key_canonical(db: ProgramDB) -> List[Instance]:
+    """Rows are dicts that are built up in whatever order the operators bind the variables, so two rows with the same
+    content can list their items in different orders.  Wherever the content of a mapping is turned into a hashable key
+    (set element, membership test, hash) the key has to be independent of that order: sorted(...) or frozenset(...)."""
+    out = []
+    n = 0
+    for fn in db.all_functions():
+        parents = {id(ch): par for par in ast.walk(fn.node) for ch in ast.iter_child_nodes(par)}
+        for x in own_nodes(fn.node):
+            if not (isinstance(x, ast.Call) and dotted(x.func) in ("tuple", "list", "frozenset", "sorted") and len(x.args) >= 1):
+                continue
+            a = x.args[0]
+            if not (isinstance(a, ast.Call) and call_attr(a) in ("items", "keys", "values") and not a.args):
+                continue
+            # climb through order-free / order-fixing wrappers
+            top = x
+            canonical = dotted(x.func) in ("frozenset", "sorted")
+            while True:
+                par = parents.get(id(top))
+                if isinstance(par, ast.Call) and dotted(par.func) in ("tuple", "list", "sorted", "frozenset") and par.args and par.args[0] is top:
+                    canonical = canonical or dotted(par.func) in ("sorted", "frozenset")
+                    top = par
+                    continue
+                break
+            par = parents.get(id(top))
+            as_key = (isinstance(par, ast.SetComp) and par.elt is top) or isinstance(par, ast.Set) \
+                or (isinstance(par, ast.Compare) and par.left is top and len(par.ops) == 1 and isinstance(par.ops[0], (ast.In, ast.NotIn))) \
+                or (isinstance(par, ast.Call) and dotted(par.func) == "hash") \
+                or (isinstance(par, ast.Call) and call_attr(par) in ("add", "discard", "remove") and par.args and par.args[0] is top
+                    and "set" in unparse(par.func.value).lower()) \
+                or (isinstance(par, ast.Subscript) and par.slice is top) \
+                or (isinstance(par, ast.DictComp) and par.key is top)
+            if not as_key:
+                continue
+            if x is not top and dotted(x.func) in ("tuple", "list") and canonical is False:
+                pass
+            n += 1
+            if any(o.construct.startswith(f"{fn.short}[{unparse(top)[:50]}") for o in out):
+                continue
+            out.append(inst("ROW-KEY-CANONICAL", HOLDS if canonical else VIOLATION, fn, f"{fn.short}[{unparse(top)[:50]}]",
+                            "the key does not depend on the order of the items" if canonical else
+                            f"`{unparse(top)}` is used as a key and lists the items in the order the mapping happens to hold them: two rows with "
+                            f"the same bindings built in another order (the other operand of an and_ bound first) are different keys, so an "
+                            f"intersection over them drops rows that agree", line=top.lineno))
+    if n == 0:
+        raise AnalysisError("no hashable key built from the content of a mapping found")
+    return out
